@@ -85,6 +85,14 @@ fn gen_scenario(t: &mut Tape) -> Scenario {
     // option *values* and file names that look like a command delta could launch (`rg`, `git ... diff`):
     // delta is still only a pager here, so its caller is found by the background thread as ever
     let mut f = t.fork(11);
+    // a launched git command with one of git's own options in front of the sub-command
+    // (`delta git --no-pager grep ...`, `delta git -C dir blame ...`): still the launched command
+    if sc.launched.first().map(|s| s == "git").unwrap_or(false) && sc.name != "known:delta-git-unparsed-subcommand" && f.chance(1, 3) {
+        let extra: &[&str] = *f.pick(&[&["--no-pager"][..], &["-C", "."], &["-c", "core.abbrev=7"], &["--git-dir=.git"]]);
+        for (i, e) in extra.iter().enumerate() {
+            sc.launched.insert(1 + i, e.to_string());
+        }
+    }
     if sc.launched.is_empty() && f.chance(1, 3) {
         let extra: &[&str] = *f.pick(&[
             &["--default-language", "rg"][..],
